@@ -34,8 +34,7 @@ theorem onceInv_send (s : S) (d : List Byte) (hs : OnceInv s) : OnceInv (send s 
   split
   · exact ⟨h1, h2, h3, h4, h5⟩
   · exact ⟨h1, h2, h3, h4, h5⟩
-  · have hc := counts_addEv s.hist (.sendDrop d) rfl
-    exact ⟨by simp only [hc.1]; exact h1, by simp only [hc.2]; exact h2, h3, h4, h5⟩
+  · split <;> exact ⟨h1, h2, h3, h4, h5⟩
 
 theorem onceInv_disable (s : S) (hs : OnceInv s) :
     OnceInv (disable s).1 ∧ (disable s).1.st ≠ .running ∧ (disable s).1.conn = s.conn ∧
@@ -80,7 +79,10 @@ theorem onceInv_stable : Stable OnceInv where
 def ZFresh (s : S) : Prop := zeroCount s.hist = 0 ∧ s.eofSeen = true
 
 theorem send_eofSeen (s : S) (d : List Byte) : (send s d).1.eofSeen = s.eofSeen := by
-  unfold send; split; rfl; simp only; split; rfl; split <;> rfl
+  unfold send; split; rfl; simp only; split; rfl; split
+  · rfl
+  · rfl
+  · split <;> rfl
 theorem enable_eofSeen (s : S) : (enable s).1.eofSeen = s.eofSeen := by
   unfold enable; split; rfl; split <;> rfl
 theorem disable_eofSeen (s : S) : (disable s).1.eofSeen = s.eofSeen := by
@@ -89,10 +91,7 @@ theorem disable_eofSeen (s : S) : (disable s).1.eofSeen = s.eofSeen := by
 theorem zfresh_stable : Stable ZFresh := by
   refine Stable.ofRaw ?_ ?_ ?_ ?_
   · intro s d ⟨h1, h2⟩
-    refine ⟨?_, by rw [send_eofSeen]; exact h2⟩
-    rcases send_hist s d with h | h <;> rw [h]
-    · exact h1
-    · rw [(counts_addEv _ (.sendDrop d) rfl).2]; exact h1
+    exact ⟨by rw [send_hist]; exact h1, by rw [send_eofSeen]; exact h2⟩
   · intro s ⟨h1, h2⟩; exact ⟨by rw [enable_hist]; exact h1, by rw [enable_eofSeen]; exact h2⟩
   · intro s ⟨h1, h2⟩; exact ⟨by rw [disable_hist]; exact h1, by rw [disable_eofSeen]; exact h2⟩
   · intro s h; exact h
@@ -228,11 +227,8 @@ theorem closeInv_stable : Stable CloseInv := by
   refine Stable.ofRaw ?_ ?_ ?_ ?_
   · intro s d hs
     have hr := send_rsame s d
-    refine ⟨streamInv_stable_send s d hs.stream, by rw [hr.pres, hr.got]; exact hs.presLe,
-      by rw [hr.pres, hr.got, hr.recvQ]; exact hs.unp, ?_⟩
-    rcases send_hist s d with h | h <;> rw [h]
-    · exact hs.close
-    · exact closeOk_append _ _ hs.close (fun _ h => by cases h) (fun _ h => by cases h)
+    exact ⟨streamInv_stable_send s d hs.stream, by rw [hr.pres, hr.got]; exact hs.presLe,
+      by rw [hr.pres, hr.got, hr.recvQ]; exact hs.unp, by rw [send_hist]; exact hs.close⟩
   · intro s hs; exact hs.congr (enable_rsame s) (enable_hist s)
   · intro s hs; exact hs.congr (disable_rsame s) (disable_hist s)
   · intro s hs; exact hs.congr ⟨rfl, rfl, rfl, rfl, rfl, rfl, rfl⟩ rfl
